@@ -37,14 +37,14 @@ def run(rep, tier, seed):
     chk = RecorderCheck(rep, tier, seed, CATS, nontrivial)
     try:
         if tier == 'quick':
-            chk.check('chk', gen_consts(3, Vals=['v1', 'v2'], Threads=[0, 1]), invariants=INVS)
+            chk.check('chk', gen_consts(3, Vals=['v1', 'v2']), invariants=INVS)
             ex = chk.generate('gen2', gen_consts(2), cassettes=('memory', 'file'), n_conc=1, all_paths=True, cap=30000)
             chk.generate('gen3', gen_consts(3, Classes=[K('K1')], Draws=['low'], InCalls=[('ia2', 1)],
                                             OutAliases=['oa2']),
                          cassettes=('memory',), n_conc=1, sample=1500)
             rep.exhaustive = bool(ex)
         else:
-            chk.check('chk', gen_consts(4, Vals=['v1', 'v2'], Threads=[0, 1], MaxRuns=3, MaxRecs=2), invariants=INVS,
+            chk.check('chk', gen_consts(4, Vals=['v1', 'v2'], MaxRuns=3, MaxRecs=2), invariants=INVS,
                       timeout=3000)
             ex = chk.generate('gen2', gen_consts(2), cassettes=('memory', 'file'), n_conc=2, all_paths=True)
             chk.generate('gen3', gen_consts(3), cassettes=('memory',), n_conc=1, all_paths=True, cap=400000)
